@@ -1,6 +1,7 @@
 package main
 
 import (
+	"regexp"
 	"fmt"
 	"go/ast"
 	"go/token"
@@ -465,7 +466,16 @@ func runC14(c *Ctx) {
 	} else {
 		r.Fail("sorted/slot-index-coupled", pkg+".sortedSet.swap", p.posStr(fd.Pos()), "swap must exchange the slice slots and the elements' indices together and order by weight: "+s)
 	}
-	if s, fd := srcNorm(p, pkg, "sortedSet", "deleteSorted"); fd != nil {
+	if fd := p.FuncDecl(pkg, "sortedSet", "deleteSorted"); fd != nil {
+		// judged on the operation with its stage helpers in place (resolved stores, receiver as $)
+		s := ""
+		{
+			df := newFuncCFG(p, p.Pkg(pkg).TypesInfo, fd.Body, pkg+".sortedSet.deleteSorted")
+			s = strings.Join(df.Effects(), "; ")
+			if fd.Recv != nil && len(fd.Recv.List) == 1 && len(fd.Recv.List[0].Names) == 1 {
+				s = regexp.MustCompile(`\b`+regexp.QuoteMeta(fd.Recv.List[0].Names[0].Name)+`\.`).ReplaceAllString(s, "$$.")
+			}
+		}
 		if hasAll(s, "$.sortedElements[i]=$.sortedElements[(i+1)]", "$.sortedElements[i].index--", "$.sortedElements=$.sortedElements[:(len($.sortedElements)-1)]") {
 			r.Pass("sorted/slot-index-coupled", pkg+".sortedSet.deleteSorted", p.posStr(fd.Pos()), "closing the gap shifts slots and decrements the shifted elements' indices")
 		} else {
